@@ -20,6 +20,9 @@ import subprocess
 import sys
 import time
 
+sys.path.insert(0, os.path.dirname(os.path.abspath(__file__)))
+import factlint  # noqa: E402  (static hygiene of the fact tie: unconsumed facts, auto-param binders)
+
 VERIF = os.path.dirname(os.path.dirname(os.path.abspath(__file__)))
 REPO = os.environ.get("VERIF_REPO", "/repo")
 BUILD = os.path.join(VERIF, "build")
@@ -201,6 +204,22 @@ class Run:
                     if mm:
                         self.ties.append({"tie": "proof-hygiene", "what": "%s contains forbidden token %r" % (m, mm.group(0).strip())})
 
+            # static hygiene of the fact tie (runner/factlint.py): generated definitions nothing consumes,
+            # and `(h : fact = true := by decide)` binders (autoParam: not an obligation). Always in the
+            # evidence; broken ties once the property opts in with "strict_facts": true.
+            try:
+                lint = factlint.lint(cfg)
+            except Exception as e:  # a lint bug must never hide a real result
+                lint = {"unconsumed_facts": [], "autoparam_binders": [], "error": repr(e)}
+            self.notes["factlint"] = lint
+            if cfg.get("strict_facts"):
+                for u in lint["unconsumed_facts"]:
+                    self.ties.append({"tie": "fact-hygiene", "what": "generated fact Juniper.Gen.%s is consumed by no model, proof or property file: it can change without any theorem noticing" % u})
+                for b in lint["autoparam_binders"]:
+                    self.ties.append({"tie": "fact-hygiene", "what": "auto-param binder (an assumption, not an obligation; discharge the fact inside the proof or through a proved tie lemma): " + b})
+                if lint.get("error"):
+                    self.ties.append({"tie": "fact-hygiene", "what": "factlint failed: " + lint["error"]})
+
             cmd = ["lake", "build"] + props
             self.checker_cmds.append("cd lean && " + " ".join(cmd))
             rc, out = sh(cmd, cwd=LEAN, timeout=3000)
@@ -216,7 +235,8 @@ class Run:
                     self.ties.append({"tie": "proof", "what": "lake build %s failed: %s" % (" ".join(props), out[-600:])})
             self.discharged = max(0, self.obligations - max(len(failed), 1 if rc != 0 else 0))
 
-            # axiom audit of the property theorems
+            # axiom audit of the property theorems (+ `#check @thm`: an elaborated type that mentions
+            # autoParam is an auto-param binder the static scan may have missed, e.g. through `variable`)
             if rc == 0 and self.notes["property_theorems"]:
                 audit = os.path.join(self.rundir, "Audit.lean")
                 with open(audit, "w") as f:
@@ -224,10 +244,23 @@ class Run:
                         f.write("import %s\n" % p)
                     for t in self.notes["property_theorems"]:
                         f.write("#print axioms %s\n" % t)
+                    for t in self.notes["property_theorems"]:
+                        if ".Props.Pin" not in t:
+                            f.write('#print "##CHECK %s"\n#check @%s\n' % (t, t))
+                    f.write('#print "##END"\n')
                 cmd = ["lake", "env", "lean", audit]
                 self.checker_cmds.append("cd lean && lake env lean <Audit.lean: #print axioms of every property theorem>")
                 rc2, out2 = sh(cmd, cwd=LEAN, timeout=1200)
                 self.log("audit.log", out2)
+                out2, _, checks_out = out2.partition("##CHECK ")
+                have = " ".join(self.notes["factlint"]["autoparam_binders"])
+                for chunk in checks_out.split("##CHECK "):
+                    name, _, body = chunk.partition("\n")
+                    if "autoParam" in body.split("##END")[0] and name.strip().split(".")[-1] not in have:
+                        b = "%s (autoParam in the elaborated type)" % name.strip()
+                        self.notes["factlint"]["autoparam_binders"].append(b)
+                        if cfg.get("strict_facts"):
+                            self.ties.append({"tie": "fact-hygiene", "what": "auto-param binder (an assumption, not an obligation): " + b})
                 if rc2 != 0:
                     self.ties.append({"tie": "axiom-audit", "what": "audit failed: " + out2[-400:]})
                 for mm in re.finditer(r"'([^']+)' depends on axioms: \[([^\]]*)\]", out2.replace("\n", " ")):
@@ -502,6 +535,9 @@ class Run:
             "generated_fact_fingerprint": self.notes.get("fact_fingerprint"),
             "generated_fact_fingerprints": self.notes.get("fact_fingerprints"),
             "broken_ties": self.ties,
+            "unconsumed_facts": (self.notes.get("factlint") or {}).get("unconsumed_facts", []),
+            "autoparam_binders": (self.notes.get("factlint") or {}).get("autoparam_binders", []),
+            "strict_facts": bool(cfg.get("strict_facts")),
             "escalated_search": bool(self.notes.get("escalated_search")),
             "leanchecker": self.notes.get("leanchecker", "not run (quick tier)"),
             "repo": REPO,
